@@ -119,8 +119,10 @@ def _make_feedback(owner, fb):
             return box
         return v
 
-    getter.__name__ = fb["m"]
-    getter.__qualname__ = fb["m"]
+    # usually a def under its own name; sometimes the attribute is bound to a function with another name
+    # (get_left = feedback(_side), a decorator without functools.wraps): the attribute name is what counts
+    getter.__name__ = "_impl" if fb.get("other_fname") else fb["m"]
+    getter.__qualname__ = getter.__name__
     t = _hint_type(hint)
     if t is not None:
         getter.__annotations__ = {"return": t}
@@ -165,10 +167,26 @@ def build_program(rs):
                 CTX.setup_probe[_n] = ok
                 CTX.hit(f"{_n}.setup")
             ns["setup"] = setup
-        if c.get("en"):
+        late = bool(c.get("late_hooks") and c.get("setup"))
+        if c.get("en") and not late:
             ns["on_enable"] = _cb(f"{n}.on_enable")
-        if c.get("dis"):
+        if c.get("dis") and not late:
             ns["on_disable"] = _cb(f"{n}.on_disable")
+        if late:
+            # the hooks are bound on the instance inside setup() (e.g. self.on_disable = self.motor.stop)
+            def bind_hooks(self, _n=n, _c=c):
+                if _c.get("en"):
+                    self.on_enable = lambda _t=f"{_n}.on_enable": CTX.hit(_t)
+                if _c.get("dis"):
+                    self.on_disable = lambda _t=f"{_n}.on_disable": CTX.hit(_t)
+
+            inner_setup = ns["setup"]
+
+            def setup_late(self, _inner=inner_setup, _bind=bind_hooks):
+                _bind(self)
+                _inner(self)
+
+            ns["setup"] = setup_late
         ns["execute"] = _cb(f"{n}.execute")
         for attr, default in c.get("resets", {}).items():
             ns[attr] = will_reset_to(default)
@@ -504,8 +522,15 @@ def run_program(case, with_faults=True, with_writes=True):
                     for part in chunks[k % len(chunks)]:
                         drv.step_partial(part)
                 k += 1
-                drv.step_to_alarm()
-                record(mode, "first" if (i == 0 and mode != prev) else "iter")["fms"] = fms_now
+                jump = (case.get("jumps") or {}).get(str(k))
+                if jump and i > 0:
+                    drv.jump(jump, rs["P"])
+                    st_ = record(mode, "jump")
+                    st_["fms"] = fms_now
+                    st_["jump"] = jump
+                else:
+                    drv.step_to_alarm()
+                    record(mode, "first" if (i == 0 and mode != prev) else "iter")["fms"] = fms_now
                 if not drv.alive():
                     break
             prev = mode
@@ -588,6 +613,8 @@ def decode_fb(code, used):
         fb["inplace"] = True
     if not fb["hint"].startswith("u_") and vals[-1] % 3 == 0:
         fb["strhint"] = True
+    if vals[0] % 5 == 4 and not fb["key"]:
+        fb["other_fname"] = True
     k = fb_key(fb)
     if m in used["m"] or k in used["k"] or k == "":
         return None
@@ -605,6 +632,8 @@ def decode_robot(code):
             c["sm"] = True  # this component is a magicbot StateMachine
         elif rv == 1 and fbs_c:
             c["fb_on_base"] = True
+        if rv == 0 and c["setup"] and not c.get("sm"):
+            c["late_hooks"] = True
         c["resets"] = {(f"_r{j}" if (rv + j) % 3 == 0 else f"r{j}"): RESET_VALUES[(rv + j) % 5] for j in range(nres)}  # markers may be private names too
         c["base_resets"] = {f"b{j}": RESET_VALUES[(rv + 2 + j) % 5] for j in range(nbres)}
         if nres and (rv + flags) % 3 == 0:
@@ -724,6 +753,9 @@ def robot_cases(pid, deep=False):
             case["writes"] = decode_writes(wcode, rs)
         if pid == "C05":
             case["chunks"] = [c for c in ccode]
+            if wcode:
+                # at some steps the clock jumps several periods at once while the loop sleeps
+                case["jumps"] = {str(3 + 2 * j + w[0]): 2 + w[1] % 4 for j, w in enumerate(wcode) if w[3] >= 2}
         return case
 
     rc, hc = _ROBOT_CODE, _HIST_CODE
@@ -815,11 +847,17 @@ class C05(RobotLab):
                 continue
             obs = [t for t in tags(s) if not is_lifecycle(t)]
             want = ex.iteration(s["mode"])
+            if s["kind"] == "jump":
+                # k periods of FPGA time went by in one step: the loop catches up with exactly k iterations
+                want = want * s["jump"]
+                cl_jump = True
+                if t_prev is not None:
+                    t_prev += (s["jump"] - 1) * P
             bad = match_seq(want, obs)
             if bad:
                 raise Violation(f"C05/order/{s['mode']}", f"step {i} {_fmt(s)}: {bad[1]}; expected iteration {want}; case: {case}")
             ts = {e[1] for e in s["log"]}
-            if len(ts) > 1 or (ts and ts != {s["t"]}):
+            if s["kind"] != "jump" and (len(ts) > 1 or (ts and ts != {s["t"]})):
                 raise Violation("C05/timestamps", f"step {i}: callbacks saw FPGA times {sorted(ts)}, alarm at {s['t']}; case: {case}")
             if t_prev is not None and s["t"] - t_prev != P:
                 raise Violation("C05/grid", f"step {i}: iteration at {s['t']}us, previous at {t_prev}us, period {P}us; case: {case}")
@@ -831,6 +869,8 @@ class C05(RobotLab):
         nt = (len(rs["comps"]) >= 2 or rs.get("nbase")) and len({h[0] for h in case["hist"]}) >= 2
         if case.get("chunks"):
             cl.add("chunked-clock")
+        if any(s["kind"] == "jump" for s in run.steps):
+            cl.add("clock-jump-of-several-periods")
         return {"nontrivial": bool(nt), "classes": sorted(cl)}
 
 
